@@ -39,6 +39,31 @@ for k in ('XMLExceptionHandler', 'OWSExceptionHandler'):
              trace=[_message_is_escaped])
 
 
+# ---- xml_text itself: the handlers above rely on "xml_text(msg) is msg as escaped character data" ---------------------------
+def _xml_text_is_whole_escape(ex, st, post, result):
+    """the result IS html.escape(<msg without the characters XML forbids>): nothing is appended, cut (a cut after escaping can
+    land inside an entity) or re-assembled after the escape, and what is escaped is derived from msg by the removal only"""
+    import z3
+    from pyvc.values import eq, VStr
+    esc = T.evs(st, 'escape')
+    sub = T.evs(st, 'sub')
+    ok = len(esc) == 1 and len(sub) == 1
+    goal = z3.BoolVal(ok)
+    if ok:
+        e, s_ = esc[0][1], sub[0][1]
+        goal = z3.And(goal, z3.BoolVal(result is e.result), z3.BoolVal(len(e.args) == 1 and e.args[0] is s_.result),
+                      z3.BoolVal(not e.kwargs or set(e.kwargs) <= {'quote'}),
+                      z3.BoolVal(len(s_.args) == 2), eq(s_.args[1], post.env['msg']) if len(s_.args) == 2 else z3.BoolVal(False),
+                      eq(s_.args[0], VStr('')) if len(s_.args) == 2 else z3.BoolVal(False))
+        for k, v in e.kwargs.items():
+            goal = z3.And(goal, ex.truth(st, v))
+    yield ('xml_text_is_the_whole_escaped_message', goal,
+           'xml_text(msg) returns html.escape(_illegal_xml_chars.sub("", msg)) itself, quotes included: the escaped text is not cut, '
+           'extended or edited afterwards')
+
+
+
+
 def _plain_is_text_plain(ex, st, post, result):
     import z3
     from pyvc.values import eq, VStr
@@ -448,11 +473,13 @@ contract('mapproxy.request.wms.exception:WMSImageExceptionHandler.render', props
 
 
 
-# ---- xml_text: character-level postcondition, BOUNDED (regular expression + replace chain) -------------------------------------------
+# ---- xml_text: dataflow proved (trace clause above); character-level postcondition BOUNDED (regular expression + replace chain) -------------------------------------------
 def _gen_xml_text(gen, rng):
     alphabet = ['<', '>', '&', '"', "'", 'a', ' ', '\x00', '\x01', '\x08', '\x0b', '\x0c', '\x0e', '\x1f', '\t', '\n', '\r', '\x7f', '\ufffe', '\uffff',
                 '\u00e9', '&amp;', ']]>', 'unknown layer: ']
-    return {'msg': ''.join(rng.choice(alphabet) for _ in range(rng.randint(0, 14)))}
+    # (long messages too: an answer that is cut or padded beyond some length must not escape the search)
+    n = rng.choice([rng.randint(0, 14)] * 6 + [200, 260, 300, 340, 1023, 1024, 1025, 2100, 4099, 8200])
+    return {'msg': ''.join(rng.choice(alphabet) for _ in range(n))}
 
 
 def _xml_text_is_wellformed_chardata(args, result):
@@ -463,7 +490,12 @@ def _xml_text_is_wellformed_chardata(args, result):
     return all(ok_char(c) for c in result) and result == html.escape(kept) and '<' not in result and '>' not in result
 
 
-contract('mapproxy.exception:xml_text', props=['C18'], verify=False, types=dict(msg='str'), returns='str',
+contract('mapproxy.exception:xml_text', props=['C18'], types=dict(msg='str'), returns='str', default_callee='opaque',
+         opaque_spec={'escape': {'returns': 'str', 'pure': True}, 'sub': {'returns': 'str', 'pure': True}},
+         opaque=['escape'],
+         # proved for every message: the result is the escape call's own result (html.escape and re.sub are trusted library calls);
+         trace=[_xml_text_is_whole_escape],
+         # what the two library calls amount to is checked on the real function, bounded
          ensures=[_xml_text_is_wellformed_chardata], fuzz_gen=_gen_xml_text, bounded=dict(n=5000, seconds=8))
 
 
